@@ -64,7 +64,7 @@ func (g *gen) cfg(i int) Cfg {
 		a := App{Name: n, Tag: (i+1)*4 + n}
 		a.Listen = g.listen(used, 3)
 		a.Mods = g.mods(3)
-		if n == 3 && g.rng.Chance(2, 5) {
+		if n == 3 && g.rng.Chance(1, 2) {
 			// real reverse proxies; few distinct upstreams so that configs share them
 			for k := 1 + g.rng.Intn(2); k > 0 && len(a.Mods) < 4; k-- {
 				rp := Mod{0, 4 + g.rng.Intn(2)}
@@ -134,6 +134,9 @@ func (g *gen) inject(c *Cfg, e *Env) {
 			m.Fault = 1 + g.rng.Intn(4)
 			if m.IsRp() {
 				m.Fault = 2 + g.rng.Intn(3)
+				if g.rng.Chance(1, 2) {
+					m.Fault = 3 // fails before its upstreams are set up
+				}
 			}
 			return
 		case 6, 7: // a listener cannot bind
